@@ -60,6 +60,7 @@ type ProcResult struct {
 	Downlink           int
 	Done               bool
 	ReturnedAfterFault bool
+	Stuck              bool // the AMF answered everything and has been silent for 25 s, yet the procedure has not returned
 }
 
 // ProcChildMain is `hx proc`: reads a ProcSpec from stdin, prints a ProcResult on stdout.
@@ -129,8 +130,21 @@ func ProcChildMain() int {
 	// the parent's watchdog.
 	var emitOnce sync.Once
 	go func() {
+		last, since := -1, time.Now()
+		quiet := 25*time.Second + refamf.LateBy(sp.FaultKind)
 		for {
 			time.Sleep(200 * time.Millisecond)
+			if act := amf.Activity(); act != last {
+				last, since = act, time.Now()
+			} else if time.Since(since) > quiet && sp.FaultAt < 0 {
+				// a conformant, quiescent network and a procedure that does not come back: stuck, not slow (the longest pause a
+				// procedure makes on its own is one second)
+				emitOnce.Do(func() {
+					res.Done, res.Stuck = true, true
+					emit()
+					os.Exit(0)
+				})
+			}
 			if amf.NViolations() > 0 {
 				time.Sleep(1500 * time.Millisecond) // let an immediate follow-up (the procedure's own exit) win
 				emitOnce.Do(func() {
